@@ -18,10 +18,13 @@ fn repr(k: &Z) -> crt::FrRepr {
     crt::FrRepr(l)
 }
 
-fn expect<G: Grp>(what: &str, got: &G::Proj, want: &Pt<G::F>, k: &Z) -> Result<(), String> {
+fn expect<G: Ops>(what: &str, got: &G::Proj, want: &Pt<G::F>, k: &Z) -> Result<(), String> {
     let g = proj_m::<G>(got);
     if &g != want {
         return Err(format!("{} {}: crate gives {} but [k]P = {} (k = 0x{:x})", G::NAME, what, pt_brief(&g), pt_brief(want), k));
+    }
+    if !cr("==", || G::op_eq(got, &proj_c::<G>(want)))? {
+        return Err(format!("{} {}: the result is {} but the crate's == says it differs from that point built from its coordinates (k = 0x{:x})", G::NAME, what, pt_brief(want), k));
     }
     Ok(())
 }
